@@ -675,6 +675,11 @@ func (e *Env) call(x *Expr) TTerm {
 			e.g.Global(n, "Iface", true)
 			return TTerm{S: n, Sort: "Iface"}
 		}
+	case "jsonInput":
+		// the induction hypothesis of the C18 sweep: every value received so far is a finite JSON value
+		return B("c18.ih")
+	case "finiteVal":
+		return un("val.finite", "Bool")
 	case "pendingOnly":
 		// pendingOnly(n1, n2, ...): the AST nodes not yet accounted for are at most the given ones (linear contracts)
 		pend := e.famOf("G_pend")
